@@ -126,11 +126,11 @@ def cases(ctx):
                         yield "icao", {"df": df, "n": n, "addr": addr, "body": "%X" % rng.getrandbits(83), "hexcase": hc,
                                        "ic": rng.randrange(80) if j % 2 else 0}
                     i += 1
-    for k in range(ctx.share(150000 if quick else 3000000)):
+    for k in range(ctx.share(600000 if quick else 3000000)):
         df = rng.randrange(32) if k % 3 == 0 else rng.choice(AP + AA)
         n = rng.choice((56, 112)) if k % 4 == 0 else bits.df_len(df)
         yield "icao", {"df": df, "n": n, "addr": rng.getrandbits(24), "body": "%X" % rng.getrandbits(83),
                        "hexcase": rng.choice(("upper", "upper", "lower", "mixed")), "ic": rng.choice((0, 0, rng.randrange(80)))}
-    for k in range(ctx.share(600 if quick else 20000)):
+    for k in range(ctx.share(3000 if quick else 20000)):
         yield "table", {"addr": rng.getrandbits(24) | 0xA00000, "cs": "%X" % rng.getrandbits(48), "df": rng.choice((20, 21)),
                         "hexcase": "upper" if k % 2 == 0 else rng.choice(("lower", "mixed")), "hexcase2": rng.choice(("upper", "lower"))}
